@@ -57,6 +57,7 @@ fn oracles() -> Vec<(&'static str, Enumerate, Check)> {
         ("c05_reask", o_solver::enum_reask, o_solver::check_reask),
         ("c03_not", o_solver::enum_not, o_solver::check_not),
         ("c02_cut", o_solver::enum_cut, o_solver::check_cut),
+        ("c02_walk", o_solver::enum_walk, o_solver::check_walk),
         ("c05_prog", o_solver::enum_prog_reask, o_solver::check_program),
         ("c02_prog", o_solver::enum_prog_cut, o_solver::check_program),
         ("c03_prog", o_solver::enum_prog_not, o_solver::check_program),
